@@ -2,7 +2,7 @@
    Evaluated either by vm_compute inside coqc or by the OCaml program extracted from this file. *)
 From Coq Require Import ZArith List Bool String Ascii.
 From Coq.Strings Require Import Byte.
-From CP Require Import Core.Bytes Core.Result Core.Show Prim.Int Prim.Mpint Prim.Timestamp Base.Enum Base.Array Frame.LVFrame Frame.Units Frame.Entry Reader.Reader Spec.PL Spec.TlsSpec Spec.Ja3 Tls.Ja3Model Spec.KeyTag Spec.DnsSpec Dns.KeyTag Spec.SshSpec Ssh.Record.
+From CP Require Import Core.Bytes Core.Result Core.Show Prim.Int Prim.Mpint Prim.Timestamp Base.Enum Base.Array Frame.LVFrame Frame.Units Frame.Entry Reader.Reader Spec.PL Spec.TlsSpec Spec.Ja3 Tls.Ja3Model Spec.KeyTag Spec.DnsSpec Dns.KeyTag Spec.SshSpec Ssh.Record Spec.OppSpec Opp.Rdp.
 From CPGen Require Import Tables.
 Import ListNotations.
 Local Open Scope string_scope.
@@ -178,6 +178,18 @@ Definition show_kex (k : bytes * list (list bytes) * Z * Z) : string :=
 
 Definition run_words (ws : list string) : string :=
   match ws with
+  | ["tpktenc"; h] => show_opt (enc_tpkt (hex_or_empty h))
+  | ["cotpenc"; code; dst; src; h] => show_opt (enc_cotp (z_of_string code) (z_of_string dst) (z_of_string src) (hex_or_empty h))
+  | ["pcotp"; ty; h] => show_result (fun x => show_zz (fst (fst x)) ++ ";" ++ hex_of_bytes (snd (fst x)) ++ " n=" ++ string_of_Z (snd x))
+                                    (parse_cotp (z_of_string ty) (bytes_of_hex h))
+  | ["rdpnegenc"; ty; flags; protos] => "OK " ++ hex_of_bytes (enc_rdp_neg (z_of_string ty) (z_of_string flags) (z_of_string protos))
+  | ["mysqlpktenc"; seq; h] => show_opt (enc_mysql_packet (z_of_string seq) (hex_or_empty h))
+  | ["mysqlssl41"; caps; mx; cs] => "OK " ++ hex_of_bytes (enc_mysql_ssl_request41 (z_of_string caps) (z_of_string mx) (z_of_string cs))
+  | ["mysqlssl320"; caps; mx] => "OK " ++ hex_of_bytes (enc_mysql_ssl_request320 (z_of_string caps) (z_of_string mx))
+  | ["ovpnctl"; op; sess; acks; remote; pid; h] =>
+      "OK " ++ hex_of_bytes (enc_openvpn_control (z_of_string op) (z_of_string sess) (zlist_of_string acks) (z_of_string remote) (z_of_string pid) (hex_or_empty h))
+  | ["ovpntcp"; h] => show_opt (enc_openvpn_tcp (hex_or_empty h))
+  | ["pgssl"] => "OK " ++ hex_of_bytes enc_pg_ssl_request
   | ["sshpad"; l] => "OK " ++ string_of_Z (padding_length (z_of_string l)) ++ " " ++ string_of_Z (packet_length (z_of_string l))
   | ["mpintspec"; z] => "OK " ++ hex_of_bytes (enc_mpint (z_of_string z))
   | ["kexenc"; cookie; lists; f; res] =>
